@@ -3,7 +3,7 @@
    square root of the normalisation is not modelled: the output is the exact pair (x - mean, var + eps)). *)
 From Coq Require Import List Bool Arith ZArith QArith.
 Import ListNotations.
-From SG Require Import State.BNDropout Proofs.BNDropoutProofs.
+From SG Require Import State.BNDropout State.ModeTree Proofs.BNDropoutProofs Proofs.ModeTreeProofs.
 Open Scope Q_scope.
 
 (* ---- eval mode ------------------------------------------------------------------------------------- *)
@@ -115,6 +115,60 @@ Theorem state_depends_on_training_forwards_only :
 Proof. exact run_factor. Qed.
 Goal True. idtac "ASSUMPTIONS state_depends_on_training_forwards_only". Abort.
 Print Assumptions state_depends_on_training_forwards_only.
+
+(* ---- the layer inside a module tree -------------------------------------------------------------------- *)
+(* State/ModeTree.v: the layer sits at path [lp] below a root; train()/eval() may be called on ANY node (recursive
+   propagation: the node's flag and the flags of all its descendants), in any order.  The layer's mode is the one
+   requested by the LAST call on the layer itself or on one of its ancestors (the initial one if there is none):
+   calls on siblings, cousins or descendants never matter, earlier calls never matter. *)
+Theorem layer_mode_is_last_ancestor_switch :
+  forall lp sw t f, flag_at t lp = Some f ->
+    flag_at (apply_switches t sw) lp = Some (last_switch lp f sw).
+Proof. exact flag_apply_switches. Qed.
+Goal True. idtac "ASSUMPTIONS layer_mode_is_last_ancestor_switch". Abort.
+Print Assumptions layer_mode_is_last_ancestor_switch.
+
+(* in particular: after root.eval() (or eval() on any ancestor, or on the layer) every layer below is in eval mode
+   whatever individual switches were applied before, until the next call on an ancestor-or-self *)
+Theorem ancestor_switch_overrides_everything_before :
+  forall lp f before p b after,
+    is_prefix p lp = true -> Forall (fun pb => is_prefix (fst pb) lp = false) after ->
+    last_switch lp f (before ++ (p, b) :: after) = b.
+Proof. exact ancestor_switch_wins. Qed.
+Goal True. idtac "ASSUMPTIONS ancestor_switch_overrides_everything_before". Abort.
+Print Assumptions ancestor_switch_overrides_everything_before.
+
+(* BatchNorm under a tree history (switches on any node interleaved with forwards through the root) behaves exactly
+   as under the flat history it "sees" ([project]: calls on ancestors-or-self become Train/Eval, the others vanish),
+   so every theorem above (eval_is_pure, train_updates_once, cumulative_is_mean, ...) applies; its mode at every point
+   is the last ancestor-or-self switch. *)
+Theorem tree_history_is_flat_history :
+  forall o lp h t s, flag_at t lp = Some (training s) ->
+    snd (trun o lp (t, s) h) = run o s (project lp h) /\
+    training (snd (trun o lp (t, s) h)) = last_switch lp (training s) (tswitches h).
+Proof.
+  intros o lp h t s H. split; [apply (trun_projects o lp h t s H)|apply tree_mode; exact H].
+Qed.
+Goal True. idtac "ASSUMPTIONS tree_history_is_flat_history". Abort.
+Print Assumptions tree_history_is_flat_history.
+
+(* Dropout under a tree: identity iff the last ancestor-or-self call was eval() *)
+Theorem tree_dropout_follows_last_switch :
+  forall p t lp sw r x f, flag_at t lp = Some f ->
+    tree_dropout p t lp sw r x = Some (dropout p (last_switch lp f sw) r x).
+Proof. exact tree_dropout_mode. Qed.
+Goal True. idtac "ASSUMPTIONS tree_dropout_follows_last_switch". Abort.
+Print Assumptions tree_dropout_follows_last_switch.
+
+(* the seeded history: model.eval(); child.train(); model.eval()  on  root(holder(layer, side)) *)
+Example tree_example :
+  let t := Node true [Node true [Node true []; Node true []]] in
+  let sw := [([], false); ([0; 0], true); ([0; 1], true); ([], false)]%nat in
+  flag_at (apply_switches t sw) [0; 0]%nat = Some false /\
+  flag_at (apply_switches t [([], false); ([0; 0], true)]%nat) [0; 0]%nat = Some true /\
+  flag_at (apply_switches t [([], false); ([0; 1], true)]%nat) [0; 0]%nat = Some false /\
+  tree_dropout (1 # 2) t [0; 0]%nat sw [1 # 8] [3] = Some [3].
+Proof. repeat split; reflexivity. Qed.
 
 (* ---- Dropout ------------------------------------------------------------------------------------------- *)
 Theorem dropout_eval_identity : forall p r x, dropout p false r x = x.
